@@ -647,7 +647,7 @@ class IntermediateCodeGen(AbstractCodeGen):
         # quoted string
         elif defval[0] == defval[-1] and defval[0] == '"':
             # common bug in MIBs
-            if defval[1:-1] == '' and defvalType != 'OctetString':
+            if defval[1:-1] == '' and defvalType[0][0] != 'OctetString':
                 # a warning should be here
                 return {}  # we will set no default value
 
